@@ -1556,6 +1556,38 @@ def main(items):
 
 print(main([1, 2, 3][: inp()]), main([]))
 ''')
+_add("abstractions.overused_constant", "function-with-docstring", '''
+def main(x):
+    """Docstring of main."""
+    return ["the quick brown fox jumps", "the quick brown fox jumps", "the quick brown fox jumps", "the quick brown fox jumps", "the quick brown fox jumps", x]
+
+
+print(main(inp()), main.__doc__)
+''')
+_add("abstractions.overused_constant", "literal-match-pattern", '''
+def main(x):
+    match x:
+        case "the quick brown fox jumps":
+            return 1
+        case (0, 1, "north-facing wall"):
+            return 2
+    return ["the quick brown fox jumps", "the quick brown fox jumps", "the quick brown fox jumps", "the quick brown fox jumps", "the quick brown fox jumps",
+            (0, 1, "north-facing wall"), (0, 1, "north-facing wall"), (0, 1, "north-facing wall"), (0, 1, "north-facing wall"), (0, 1, "north-facing wall")]
+
+
+print(main("the quick brown fox jumps"), main((0, 1, "north-facing wall")), main(inp()))
+''')
+_add("abstractions.overused_constant", "class-with-docstring-and-default-argument", '''
+class Greeter:
+    """Docstring of the class."""
+
+    def greet(self, text="a fairly long constant text"):
+        """Docstring of greet."""
+        return [text, "a fairly long constant text", "a fairly long constant text", "a fairly long constant text", "a fairly long constant text"]
+
+
+print(Greeter().greet(), Greeter.__doc__, Greeter.greet.__doc__, inp())
+''')
 _add("fixes.replace_functions_with_literals", "all", '''
 def main(xs):
     a = list()
@@ -3193,6 +3225,9 @@ LAYOUT = {
     "tab-indented-code-with-tab-string": 'def main(v):\n\tx = "a\tb"\n\tif v > 0:\n\t\treturn x, v\n\treturn x\n\n\nprint(main(inp()))\n',
     "string-at-end-of-file": 'print(inp())\nx = """tail\n\n\n\n"""\nprint(x)',
     "long-line-with-tabs-in-string": 'def main(v):\n    return ["aaaaaaaaaaaaaaaaaaaa\tbbbbbbbbbbbbbbbbbbbbbbbbb", "cccccccccccccccccccccccc\tdddddddddddddddddddddd", "eeeeeeeeeeeeeeeeeee\tffffffffffffffffff", v]\n\n\nprint(main(inp()))\n',
+    "deep-indent-in-multiline": 'BANNER = """top\n          deep line\n  shallow\n"""\nprint(BANNER, inp())\n',
+    "deep-indent-in-multiline-in-function": 'def main(v):\n    text = """top\n                deep line\n  shallow\n        """\n    return [text, v]\n\n\nprint(main(inp()))\n',
+    "closing-brackets-inside-multiline": 'DATA = """[\n    {\n        "k": 1\n    }\n]\n"""\nprint(DATA, inp())\n',
     "continuation-lines": 'x = "a" \\\n    "b\tc"\ny = ("d   "\n     "e")\nprint(x, y, inp())\n',
 }
 
@@ -3229,6 +3264,11 @@ TRICKY = [
     ("abstractions.overused_constant", "constant-in-default-and-decorator", 'def deco(text):\n    return lambda f: f\n\n\n@deco("a fairly long constant text")\ndef main(v, t="a fairly long constant text"):\n    return [t, "a fairly long constant text", "a fairly long constant text", "a fairly long constant text", v]\n\n\nprint(main(inp()))\n'),
     ("fixes.fix_line_lengths", "long-line-in-nested-block", 'def main(v):\n    if v > -9:\n        for i in range(1):\n            result = {"alpha": v + 1000000, "beta": v + 2000000, "gamma": v + 3000000, "delta": v + 4000000, "epsilon": v}\n    return result\n\n\nprint(main(inp()))\n'),
     ("fixes.fix_line_lengths", "long-elif-and-lambda", 'def main(v):\n    f = lambda aaaaaaaaaaaa, bbbbbbbbbbbbbb, cccccccccccccc, dddddddddddddd: aaaaaaaaaaaa + bbbbbbbbbbbbbb + cccccccccccccc + dddddddddddddd\n    if v > 100000000000 and v < 200000000000 and v != 150000000000 and v != 160000000000 and v != 170000000000:\n        return 1\n    elif v > 300000000000 and v < 400000000000 and v != 350000000000 and v != 360000000000 and v != 370000000000:\n        return 2\n    return f(v, 1, 2, 3)\n\n\nprint(main(inp()))\n'),
+    ("fixes.fix_line_lengths", "backslash-adjacent-strings", "def main(x):\n    return join('''a''' \\\n        'b', x)\n\n\ndef join(a, b):\n    return a, b\n\n\nprint(main(inp()))\n"),
+    ("fixes.fix_line_lengths", "backslash-adjacent-fstrings", "def main(x):\n    return join(f'a{x}' \\\n        f'b{x}', x)\n\n\ndef join(a, b):\n    return a, b\n\n\nprint(main(inp()))\n"),
+    ("fixes.fix_line_lengths", "wrapped-single-quoted-fstrings-in-call", "def main(x):\n    if x < -5:\n        raise ValueError(f'negative value {x} '\n                         f'is not allowed')\n    return x\n\n\nprint(main(inp()))\n"),
+    ("fixes.fix_line_lengths", "wrapped-strings-in-redundant-brackets", "def main(x):\n    return (f'value {x} '\n            f'and more')\n\n\nprint(main(inp()))\n"),
+    ("abstractions.overused_constant", "module-docstring-and-future", '"""Module doc."""\nfrom __future__ import annotations\n\nimport os\n\nprint(["the quick brown fox jumps", "the quick brown fox jumps", "the quick brown fox jumps", "the quick brown fox jumps", "the quick brown fox jumps", os.sep], __doc__)\n'),
     ("fixes.implicit_dict_keys_values_items", "store-only-keys-loop-subscript", 'def main(tables, n):\n    for k in tables[n**2].keys():\n        tables[n**2][k] += 1\n    return tables\n\n\nprint(main({4: {1: inp()}}, 2))\n'),
     ("fixes.implicit_dict_keys_values_items", "store-only-keys-loop-assign", 'def main(tables, n):\n    for k in tables[n**2].keys():\n        tables[n**2][k] = 0\n    return tables\n\n\nprint(main({4: {1: inp()}}, 2))\n'),
     ("fixes.implicit_dict_keys_values_items", "store-only-keys-loop-slice", 'def main(rows, i):\n    for k in rows[i + 1 :][0].keys():\n        rows[i + 1 :][0][k] += 1\n    return rows\n\n\nprint(main([{}, {1: inp()}], 0))\n'),
